@@ -24,7 +24,7 @@ ENV_DIR = os.path.join(VERIF, "env")
 EVIDENCE_DIR = os.path.join(VERIF, "evidence")
 KNOWN_FILE = os.path.join(VERIF, "known_findings.txt")
 
-TIER_TIMEOUT = {"quick": 420, "thorough": 3000}
+TIER_TIMEOUT = {"quick": 600, "thorough": 3000}
 MEM_LIMIT_KB = 24 * 1024 * 1024
 
 MODEL_NOTES = [
